@@ -6,6 +6,7 @@ import (
 	"testing"
 
 	"github.com/z7zmey/php-parser/pkg/ast"
+	"github.com/z7zmey/php-parser/pkg/visitor/traverser"
 	"pgregory.net/rapid"
 
 	"verif/astx"
@@ -144,9 +145,40 @@ func TestExhaustiveKinds(t *testing.T) {
 	harness.Exhaustive(fmt.Sprintf("all %d node kinds x every subset of child slots x list lengths {0,1,3}", len(astx.Kinds())))
 }
 
+func traverserReuse(root ast.Vertex) string {
+	nodes := astx.Nodes(root)
+	sub := nodes[len(nodes)/2]
+	rec := &recvis.Recorder{}
+	tr := traverser.NewTraverser(rec)
+	var counts []int
+	if p := px.Guard(func() {
+		for _, n := range []ast.Vertex{root, sub, root} {
+			tr.Traverse(n)
+			counts = append(counts, len(rec.Nodes))
+		}
+	}); p != "" {
+		return "traverser panicked when used a second time: " + p
+	}
+	want := append(append(append([]ast.Vertex{}, nodes...), astx.Nodes(sub)...), nodes...)
+	if len(rec.Nodes) != len(want) {
+		return fmt.Sprintf("one Traverser used for three traversals (tree, a sub-tree, tree) presents %d nodes (after each: %v), fresh traversers present %d", len(rec.Nodes), counts, len(want))
+	}
+	for i := range want {
+		if want[i] != rec.Nodes[i] {
+			return fmt.Sprintf("one Traverser used for three traversals (tree, a sub-tree, tree): visit #%d presents %s, fresh traversers present %s", i, astx.KindName(rec.Nodes[i]), astx.KindName(want[i]))
+		}
+	}
+	return ""
+}
+
 // checkParsed: the traversal clauses on a parsed tree, plus "no node reachable along two paths".
 func checkParsed(root ast.Vertex) string {
 	if m := compareWalk(root); m != "" {
+		return m
+	}
+	// one Traverser object used for a second traversal (of a sub-tree, then of the whole tree again) presents
+	// what fresh ones present
+	if m := traverserReuse(root); m != "" {
 		return m
 	}
 	// the tree a user holds after the library's own visitor went over it (name resolution, run through the
